@@ -15,7 +15,9 @@ from . import fsutil, ops, ref
 VERIF = ops.VERIF
 OUT = os.environ.get("VERIF_OUT", VERIF)   # evidence/replays of scratch-copy runs (seed matrix) go elsewhere
 NPROC = int(os.environ.get("VERIF_JOBS", "16"))
-SHM = "/dev/shm" if os.path.isdir("/dev/shm") else os.path.join(VERIF, ".scratch")
+# scratch caches: tmpfs by default; VERIF_SCRATCH=<dir> moves them (e.g. /verif/.scratch for an ext4 pass)
+SHM = os.environ.get("VERIF_SCRATCH") or ("/dev/shm" if os.path.isdir("/dev/shm") else os.path.join(VERIF, ".scratch"))
+os.makedirs(SHM, exist_ok=True)
 
 _base = None
 
